@@ -912,11 +912,11 @@ func (d *Driver) exec(st *Step, g string) {
 			ms = 150
 		}
 		// settle: wait until no new events for ms (bounded by 20*ms)
-		last := d.rec.Len()
+		last := d.rec.Activity()
 		deadline := time.Now().Add(time.Duration(20*ms) * time.Millisecond)
 		for time.Now().Before(deadline) {
 			time.Sleep(time.Duration(ms) * time.Millisecond)
-			n := d.rec.Len()
+			n := d.rec.Activity()
 			if n == last {
 				break
 			}
